@@ -53,6 +53,20 @@ PROPS = {
         assumptions=["server ISS boundary values are reached by rebasing the connection's send sequence space through "
                      "the hook (the drawn value is not steerable)"],
     ),
+    "C20": dict(
+        modules=["HT.Props.C20"],
+        streams=["c20set", "c20knock"],
+        rule="container: every op sequence of length <= 5 (quick) / 6 (thorough) over 13 ops on 3 keys + one alias "
+             "(add, remove, count, find, each with no-op / remove-visited / remove-other callbacks) on the real "
+             "UniqueSet with the set-semantics oracle (length <= 4 also through the Lean model) + seeded longer "
+             "sequences; detector: probe bursts (TCP SYN, UDP, ICMP; repeated ports; 1..4 interleaved sources; two "
+             "bursts; a 150-probe burst spanning more than 5 s) through the real handlers and the real "
+             "knockDetector with real 5 s ticks, a second idle tick awaited; non-trivial = each over >= 2 items "
+             "with a mutating callback / a burst reached the tick; distinct = distinct case line",
+        trusted=COMMON_TB + ["verif hook listener/canary/verif_hooks_linux.go",
+                             "real-time constants (5 s tick) are waited for, not changed"],
+        assumptions=["the tick is modelled as an explicit event; the harness produces it by staying idle for 5 s"],
+    ),
 }
 
 HOOK_COMMITS = ["0596fc6", "c47bf54"]
@@ -61,6 +75,17 @@ NOT_BUILT = "check not built yet in this round (design in DESIGN.md section 7); 
 NOT_APPLICABLE = {("C%02d" % i): NOT_BUILT for i in range(1, 21)}
 
 MANIFEST_TEXT = {
+    "C20": dict(
+        text="Lean theorems: Each visits exactly the items present at its start once each whatever the callback does; add "
+             "keeps the set unique and is idempotent; for every knock history there is exactly one group per "
+             "source/destination that knocked and its port list is duplicate-free and contains exactly the protocol/port "
+             "pairs that source probed; at the idle tick every group is reported once and removed, so no later tick "
+             "repeats it. Model tied to unique-set.go exhaustively and to the real detector with real ticks.",
+        design_ref="DESIGN.md section 7, C20",
+        note="Trusted: Lean kernel; hand model HT.Knock; harness; verif hook. The select/time.After loop is modelled as "
+             "explicit knock/tick events.",
+        technique="Lean 4 proof (fold invariants over knock histories) + exhaustive/real-time differential correspondence",
+    ),
     "C02": dict(
         text="Lean theorems: every parser of the raw listener is total; one receive-loop step returns for every frame of "
              ">= 14 bytes in every listener state and configuration (full table, no ARP entry included); by induction the "
